@@ -39,6 +39,8 @@ MENUS = {
     'deep': M('deep', ('W', 'RW', 'DEF2R', 'DEF2W', 'CALL'), ('if', 'while', 'for'), vars_=('x',), for_targets=('i',), ret=('x',)),
     # functools.partial with a bound keyword, called with and without a further call-site keyword
     'partial': M('partial', ('MKP', 'CALLP', 'CALLP0', 'brk'), ('if', 'while'), vars_=('x',)),
+    # subscript stores whose index is an attribute / element of an object variable first bound in the same block
+    'compidx': M('compidx', ('BINDP', 'SUBPA', 'RSUB', 'RATTR'), ('if', 'while', 'for'), for_targets=('i',)),
     # nested / starred loop targets
     'targets': M('targets', ('RW', 'R', 'brk'), ('if', 'for'), for_targets=('nest', 'star'), ret=('x',)),
     'glob': M('glob', ('W', 'RW', 'R', 'brk', 'ret'), ('if', 'while', 'for'), vars_=('G',), for_targets=('i', 'G'), ret=('G',)),
@@ -76,6 +78,7 @@ PLAN = {
         ('deep', 3, (('x',),), ((), ('x',))),
         ('partial', 4, (('x',),), (('x',),)),
         ('targets', 3, (('x', 'y'),), (('x', 'y'), ())),
+        ('compidx', 3, ((),), ((),)),
     ],
     'thorough': [
         ('core', 3, ALL_PRO, ALL_EPI),
@@ -92,6 +95,7 @@ PLAN = {
         ('deep', 4, (('x',), ()), ((), ('x',))),
         ('partial', 5, (('x',),), (('x',),)),
         ('targets', 4, (('x', 'y'), ()), (('x', 'y'), ())),
+        ('compidx', 4, ((),), ((),)),
     ],
 }
 CAP = {'quick': 6, 'thorough': 7}
@@ -103,6 +107,22 @@ def setup(tier, seed):
   _S['tier'] = tier
 
 
+def _preorder_kinds(body):
+  for st in body:
+    yield st[0]
+    for part in st[1:]:
+      if isinstance(part, tuple) and part and isinstance(part[0], tuple):
+        for k in _preorder_kinds(part):
+          yield k
+
+
+def _reads_p_before_binding_it(body):
+  """compidx menu: `p` is local as soon as the function binds it anywhere; a subscript store through p that textually
+  precedes the first binding would raise UnboundLocalError whenever it runs - such programs are not generated."""
+  ks = list(_preorder_kinds(body))
+  return 'BINDP' in ks and any(k in ('SUBPA', 'SUBPI') for k in ks[:ks.index('BINDP')])
+
+
 def programs(tier, plan=None):
   """(menu name, body, pro, epi) - deterministic order, simplest first."""
   seen_upto = {}
@@ -110,6 +130,8 @@ def programs(tier, plan=None):
     menu = MENUS[name]
     for n in range(1, maxn + 1):
       for body in ps.blocks(n, menu):
+        if name == 'compidx' and _reads_p_before_binding_it(body):
+          continue
         for pro in pros:
           for epi in epis:
             key = (name, n, pro, epi)
